@@ -125,6 +125,12 @@ func c08Bads() []CfgLit {
 		mut(func(l *CfgLit) { l.RequestHeaders = []string{"*", "X-D", "bad name"} }),
 		mut(func(l *CfgLit) { l.ResponseHeaders = []string{"Set-Cookie"} }),
 		mut(func(l *CfgLit) { l.ResponseHeaders = []string{"*"} }),
+		// near misses of the hosts the insecure-origin rule exempts (d is credentialed and tolerates nothing)
+		mut(func(l *CfgLit) { l.Origins = []string{"https://d.example", "http://notlocalhost"} }),
+		mut(func(l *CfgLit) { l.Origins = []string{"http://app.localhost:3000"} }),
+		mut(func(l *CfgLit) { l.Origins = []string{"http://128.0.0.1", "https://d.example"} }),
+		mut(func(l *CfgLit) { l.Origins = []string{"http://[::2]:8080"} }),
+		mut(func(l *CfgLit) { l.Origins = []string{"httpss://d.example"} }),
 		// names that only a Unicode-aware case conversion would turn into acceptable ASCII ones
 		mut(func(l *CfgLit) { l.Methods = []string{"po\u017ft"} }),
 		mut(func(l *CfgLit) { l.Methods = []string{"QUERY", "opt\u0131ons"} }),
